@@ -17,12 +17,19 @@ def run(res):
     Ka = dict(Ki, SwitchClearsBeforeLoad=False)
     res.model_check_py('Loop', 'c13_asimpl_switch', Ka, invariants=lc.INV, properties=lc.PROPS_C13,
                        expect_violation=('InOnceInEntered',), count=False)
+    # D27 (found by the simulated behaviours below): the running code un-caches the handle it runs from, the loop is
+    # started again and re-enters that handle with clear_current: the switch must be recognised as a self-switch by the
+    # handle, or the loop discards the instance that was told on_switch_in
+    Kd = lc.consts(Hs={'A'}, MaxFrames=2, Sites={'p1'}, Incs={1}, Reqs={'nop', 'switch', 'clrquit'}, SelfSwitchByHandle=False)
+    res.model_check_py('Loop', 'c13_selfswitch_by_instance_only', Kd, invariants=lc.INV, properties=lc.PROPS_C13,
+                       expect_violation=('InOnceInEntered',), count=False)
     # (C) conformance: the intended instance is dumped and replayed on the real loop
     Kr = lc.consts(MaxFrames=4 if th else 3, Sites=sites if th else {'p1', 'co'}, Incs={1},
                    Reqs={'nop', 'switch', 'raise', 'quit_loop', 'poke', 'switchq', 'direct', 'respawn'})
     lc.check_and_replay(res, 'c13_switching', Kr, lc.INV, lc.PROPS_C13, own=OWN, walks=5000 if th else 1500, walk_len=10)
     Ks = lc.consts(MaxFrames=2, Sites=sites, Incs={1}, Reqs={'nop', 'switch', 'raise'})
     lc.check_and_replay(res, 'c13_all_sites', Ks, lc.INV, lc.PROPS_C13, own=OWN, walks=0)
+    lc.simulate_and_replay(res, 'c13_simulated', 1500 if th else 250, 30, own=OWN)
     n = sum(c.get('known_D16', 0) for c in res.cov.get('replay', {}).values())
     if n:
         listed = [f for f in common.load_findings().get('findings', []) if f.get('property') == 'C13' and f.get('id') == 'D16']
